@@ -180,11 +180,13 @@ def run_script(f, nworkers, inputs, script, extra=0, retry=True, return_results=
     import signal
 
     def on_alarm(signum, frame):
-        # a run that makes no observable step for this long is spinning inside Pool.run
+        # a run that burns this much CPU time without coming back is spinning inside Pool.run
         enq_calls.append('abort')
         raise Livelock()
-    old_handler = signal.signal(signal.SIGALRM, on_alarm)
-    signal.setitimer(signal.ITIMER_REAL, 1.0)
+    old_handler = signal.signal(signal.SIGPROF, on_alarm)
+    old_alarm = signal.signal(signal.SIGALRM, on_alarm)        # and a generous wall-clock bound for a run that blocks instead of spinning
+    signal.setitimer(signal.ITIMER_PROF, 2.0)      # CPU time of this process: a spinning run burns it, a descheduled one does not
+    signal.setitimer(signal.ITIMER_REAL, 60.0)
     try:
         try:
             if not started:
@@ -200,8 +202,10 @@ def run_script(f, nworkers, inputs, script, extra=0, retry=True, return_results=
         except Exception as e:
             out = ('internal', type(e).__name__)
     finally:
+        signal.setitimer(signal.ITIMER_PROF, 0)
         signal.setitimer(signal.ITIMER_REAL, 0)
-        signal.signal(signal.SIGALRM, old_handler)
+        signal.signal(signal.SIGPROF, old_handler)
+        signal.signal(signal.SIGALRM, old_alarm)
         pool_mod.mp = orig_mp
         pool_mod.time.sleep = orig_sleep
     readable = []
@@ -290,7 +294,8 @@ def run_rounds(f, nworkers, rounds, extra=0, retry=True, return_results=True):
     orig_mp = pool_mod.mp
     pool_mod.mp = types.SimpleNamespace(connection=types.SimpleNamespace(wait=wait))
     pool_mod.time.sleep = lambda _: None
-    old_handler = signal.signal(signal.SIGALRM, on_alarm)
+    old_handler = signal.signal(signal.SIGPROF, on_alarm)
+    old_alarm = signal.signal(signal.SIGALRM, on_alarm)        # and a generous wall-clock bound for a run that blocks instead of spinning
     outs, between_results, got_per_round, alive_at_start = [], [], [], []
     all_fakes = list(p.fakes)
     try:
@@ -325,7 +330,8 @@ def run_rounds(f, nworkers, rounds, extra=0, retry=True, return_results=True):
             alive_at_start.append([w.alive for w in p.fakes])
             p.script = list(script)
             ready_log.append([])
-            signal.setitimer(signal.ITIMER_REAL, 1.0)
+            signal.setitimer(signal.ITIMER_PROF, 2.0)      # CPU time of this process: a spinning run burns it, a descheduled one does not
+            signal.setitimer(signal.ITIMER_REAL, 60.0)
             try:
                 r = p.run(iter(inputs), worker_extra_pending_inputs=extra, return_results=return_results)
                 out = ('none',) if r is None and return_results else ('return', r)
@@ -338,6 +344,7 @@ def run_rounds(f, nworkers, rounds, extra=0, retry=True, return_results=True):
             except Exception as e:   # noqa
                 out = ('internal', type(e).__name__)
             finally:
+                signal.setitimer(signal.ITIMER_PROF, 0)
                 signal.setitimer(signal.ITIMER_REAL, 0)
             outs.append(out)
             got_per_round.append(dict(got=[list(w.got) for w in p.fakes], attempted=[list(w.attempted) for w in p.fakes],
@@ -345,7 +352,8 @@ def run_rounds(f, nworkers, rounds, extra=0, retry=True, return_results=True):
             if out[0] in ('blocked', 'livelock', 'internal'):
                 break
     finally:
-        signal.signal(signal.SIGALRM, old_handler)
+        signal.signal(signal.SIGPROF, old_handler)
+        signal.signal(signal.SIGALRM, old_alarm)
         pool_mod.mp = orig_mp
         pool_mod.time.sleep = orig_sleep
     details = dict(picks=picks, ready=ready_log, between=between_results, per_round=got_per_round, alive_at_start=alive_at_start,
